@@ -63,6 +63,9 @@ def cases(tier):
         for N in ((64, 65, 129, 130, 257) if tier == "quick" else (64, 65, 129, 130, 257, 521, 1024, 1025)):
             if N not in N1(tier):
                 yield Case("1d:N=%d:d=0.5:%s" % (N, path), {"kind": "1d", "N": N, "delta": 0.5, "path": path})
+        for N in ((2047, 2048, 2049, 4097) if tier == "quick" else (2047, 2048, 2049, 4097, 8192, 8193, 65537)):
+            yield Case("1dhuge:N=%d:%s" % (N, path), {"kind": "1dhuge", "N": N, "delta": 0.5, "path": path})
+        yield Case("homogeneity:%s" % path, {"kind": "homogeneity", "path": path})
         for N in ((33, 64, 130) if tier == "quick" else (33, 64, 65, 130, 257)):
             yield Case("2dbig:N=%d:%s" % (N, path), {"kind": "2dbig", "N": N, "delta": 0.5, "path": path})
         for N in ((32, 33) if tier == "quick" else (32, 33, 64, 65, 127, 128)):
@@ -88,6 +91,10 @@ def evaluate(p):
         return _gauss(o, ns, p["N"])
     if kind == "storage":
         return _storage(o, ns)
+    if kind == "1dhuge":
+        return _huge1d(o, ns, p["N"], p["delta"])
+    if kind == "homogeneity":
+        return _homogeneity(o, ns)
     N, d = p["N"], p["delta"]
     df = 1.0 / (N * d)
     if kind == "1d":
@@ -143,6 +150,62 @@ def evaluate(p):
                 worst = max(worst, _maxabs(Y[idx] - y1) / max(_maxabs(y1), 1e-300))
     o.close("batch_per_item", worst, TOL)
     o.outcome(numpy.round(F / scale_f, 6))
+    return o
+
+
+def _huge1d(o, ns, N, d):
+    """1-D transforms of several thousand samples: unit impulses at 9 positions, stored in a complex and in a real
+    dtype, against the column of the centred DFT written out directly; a dense real-dtype input against the same
+    values in a complex dtype; round trip and Parseval on the dense input"""
+    df = 1.0 / (N * d)
+    c = N // 2
+    m = numpy.arange(N) - c
+    worst = {"centred_forward": 0.0, "centred_inverse": 0.0, "real_dtype_same_transform": 0.0}
+    for k in (0, 1, 2, c - 1, c, c + 1, N // 3, N - 2, N - 1):
+        colf = d * numpy.exp(-2j * numpy.pi * m * (k - c) / float(N))
+        coli = df * numpy.exp(2j * numpy.pi * m * (k - c) / float(N))
+        for dt in (complex, float):
+            e = numpy.zeros(N, dtype=dt)
+            e[k] = 1.0
+            worst["centred_forward"] = max(worst["centred_forward"], _maxabs(numpy.asarray(ns.ft(e.copy(), d)) - colf) / d)
+            worst["centred_inverse"] = max(worst["centred_inverse"], _maxabs(numpy.asarray(ns.ift(e.copy(), df)) - coli) / df)
+            o.stat("lib_calls", 2)
+    idx = numpy.arange(N)
+    xr = ((idx * 7) % 11 - 5.0) + 0.25 * ((idx * 3) % 5)
+    for f, sc in ((lambda x: ns.ft(x, d), d), (lambda x: ns.ift(x, df), df)):
+        yr = numpy.asarray(f(xr.copy()))
+        yc = numpy.asarray(f(xr.astype(complex)))
+        worst["real_dtype_same_transform"] = max(worst["real_dtype_same_transform"], _maxabs(yr - yc) / max(_maxabs(yc), 1e-300))
+    xc = xr + 1j * ((idx * 5) % 7 - 3.0)
+    X = numpy.asarray(ns.ft(xc.copy(), d))
+    back = numpy.asarray(ns.ift(X, df))
+    o.stat("lib_calls", 6)
+    for k_, v in worst.items():
+        o.close(k_, v, TOL)
+    o.close("inverse_ift_ft", _maxabs(back - xc) / _maxabs(xc), TOL)
+    o.close("parseval", abs(numpy.sum(numpy.abs(X) ** 2) * df / (numpy.sum(numpy.abs(xc) ** 2) * d) - 1.0), TOL)
+    return o
+
+
+def _homogeneity(o, ns):
+    """ft(s x) = s ft(x) for amplitudes from 1e-200 to 1e200 (a wavefront in metres, a flux in photons): the
+    comparison is relative to the scaled result, so an absolute threshold anywhere inside shows"""
+    for N in (8, 9, 64):
+        idx = numpy.arange(N)
+        x1 = ((idx * 7) % 11 - 5.0) + 1j * ((idx * 5) % 7 - 3.25)
+        x2 = numpy.add.outer(x1, 0.5j * x1[::-1]) + 0.125 * numpy.multiply.outer(idx, idx % 3)
+        fns = [("ft", ns.ft, x1), ("ift", ns.ift, x1), ("ft2", ns.ft2, x2), ("ift2", ns.ift2, x2),
+               ("rft", ns.rft, x1.real.copy()), ("rft2", ns.rft2, x2.real.copy())]
+        for name, f, x in fns:
+            base = numpy.asarray(f(x.copy(), 0.5))
+            for s_ in (1e-200, 1e-30, 1e-12, 1e-7, 1e7, 1e30, 1e200):
+                got = numpy.asarray(f(x * s_, 0.5))
+                o.stat("lib_calls", 1)
+                if got.shape != base.shape or got.dtype.kind != base.dtype.kind:
+                    o.check("homogeneous_over_amplitude", False, sub="%s:N=%d:s=%g" % (name, N, s_),
+                            detail="shape/dtype %s %s vs %s %s" % (got.shape, got.dtype, base.shape, base.dtype))
+                    continue
+                o.close("homogeneous_over_amplitude", _maxabs(got / s_ - base) / _maxabs(base), TOL, sub="%s:N=%d:s=%g" % (name, N, s_))
     return o
 
 
